@@ -28,36 +28,102 @@ def _args(item):
 
 def render_case(case: dict, status=None) -> str:
     """case: {'conf': [items], 'setup': [...], 'act': {'lines': [...]}|None, 'before-assert': ..., ...}
-    Phases are written in the canonical order; `order` may give another order of sections."""
-    out = []
-    order = case.get('order') or PHASES
+    The text of the case file itself (see render_files for cases whose layout uses included files)."""
+    return render_files(case, status)['t.case']
+
+
+def render_files(case: dict, status=None) -> dict:
+    """{file name: text}: 't.case' and the files it includes.
+    case['layout'] (optional) = {'order': [phases]      the order in which the sections are first declared in the file,
+                                 'split': [phases]      these are declared twice: the second half of their contents comes
+                                                        under a second header at the end of the file,
+                                 'include': {phase: [at, n]}  n elements from index `at` stand in an included file}
+    None of this changes what is executed, or in which order: phases run in their fixed order, the instructions of a
+    phase in file order (declarations merged, included lines spliced in at the place of the directive)."""
+    layout = case.get('layout') or {}
+    order = []
+    for ph in list(layout.get('order') or case.get('order') or []) + PHASES:  # (robust against shrunk layouts)
+        if ph in PHASES and ph not in order:
+            order.append(ph)
+    split = [ph for ph in (layout.get('split') or [])]
+    include = layout.get('include') or {}
+    files = {}
+    heads, tails = [], []
     for ph in order:
         if ph == 'act':
             act = case.get('act')
             if act is not None:
-                out.append('[act]')
-                out.extend(act.get('lines', []))
+                heads.append('[act]')
+                heads.extend(act.get('lines', []))
             continue
-        items = list(case.get(ph) or [])
-        lines = []
+        chunks = []
         if ph == 'conf' and status is not None:
-            lines.append('status = %s' % status)
-        lines.extend(render_item(i) for i in items)
-        if lines or case.get('empty_headers'):
-            out.append('[%s]' % ph)
-            out.extend(lines)
-    return '\n'.join(out) + '\n'
+            chunks.append('status = %s' % status)
+        rendered = [render_item(i) for i in (case.get(ph) or [])]
+        if ph in include and rendered:
+            at, n = (list(include[ph]) + [0, 1])[:2]
+            at = min(max(0, at), len(rendered) - 1)
+            n = max(1, n)
+            name = 'inc-%s.xly' % ph
+            files[name] = '\n'.join(rendered[at:at + n]) + '\n'
+            rendered = rendered[:at] + ['including ' + name] + rendered[at + n:]
+        chunks.extend(rendered)
+        if ph in split and len(chunks) >= 2:
+            k = len(chunks) // 2
+            first, second = chunks[:k], chunks[k:]
+        else:
+            first, second = chunks, []
+        if first or case.get('empty_headers'):
+            heads.append('[%s]' % ph)
+            heads.extend(first)
+        if second:
+            tails.append('[%s]' % ph)
+            tails.extend(second)
+    files['t.case'] = '\n'.join(heads + tails) + '\n'
+    return files
+
+
+def write_case(world, case: dict, status=None, tail: str = '') -> str:
+    """Write the case file (home/t.case) and the files it includes; returns the text of the case file."""
+    files = render_files(case, status)
+    for name, text in files.items():
+        world.write('home/' + name, text + (tail if name == 't.case' else ''))
+    return files['t.case'] + tail
+
+
+def random_layout(g) -> dict:
+    """A layout for render_files, from the stream g."""
+    layout = {}
+    if g.random() < 0.4:
+        order = list(PHASES)
+        g.shuffle(order)
+        layout['order'] = order
+    sp = [ph for ph in INSTR_PHASES if g.random() < 0.15]
+    if sp:
+        layout['split'] = sp
+    inc = {ph: [g.randint(0, 3), g.randint(1, 2)] for ph in INSTR_PHASES[1:] if g.random() < 0.15}
+    if inc:
+        layout['include'] = inc
+    return layout
 
 
 def line_of_item(case: dict, status, ident: str):
-    """1-based line number of the instruction with the given id in the rendered text."""
-    text = render_case(case, status)
+    """1-based line number of the instruction with the given id, in the file that holds it."""
+    for text in render_files(case, status).values():
+        n = _line_of_item_in(text, case, ident)
+        if n is not None:
+            return n
+    return None
+
+
+def _line_of_item_in(text: str, case: dict, ident: str):
     for ph in INSTR_PHASES:
         for it in case.get(ph) or []:
             if it.get('id') == ident and it['k'] == 'real':
                 for n, line in enumerate(text.split('\n'), 1):
                     if line == it['text']:
                         return n
+                return None
     for n, line in enumerate(text.split('\n'), 1):
         parts = line.split()
         if len(parts) >= 2 and parts[-1] == ident and parts[0] in ('sim-fault', '%', '$', 'run'):
